@@ -9,7 +9,7 @@ from .build import VERIF
 
 
 def table():
-    rows = {1: [], 2: [], 3: [], 4: []}
+    rows = {}
     for d in sorted(glob.glob(os.path.join(VERIF, 'seeded', 'S*-C*'))):
         m = json.load(open(os.path.join(d, 'meta.json')))
         rnd = m.get('round', 1)
@@ -18,14 +18,12 @@ def table():
         own = cr.get(pid, {})
         others = ['%s: %s' % (k, v.get('verdict')) for k, v in sorted(cr.items()) if k != pid]
         qs = own.get('queries_with_counterexample') or []
-        rows[rnd].append('| %s | %s | %s | %s | %s |' % (
+        rows.setdefault(rnd, []).append('| %s | %s | %s | %s | %s |' % (
             m['id'], m['change'].replace('|', '/'), m['needs_to_manifest'].replace('|', '/'),
             own.get('verdict', 'not run') + ((' (also run: ' + '; '.join(others) + ')') if others else ''),
             ', '.join(qs[:4]) + (' …' if len(qs) > 4 else '')))
     out = []
-    for rnd in (1, 2, 3, 4):
-        if not rows[rnd]:
-            continue
+    for rnd in sorted(rows):
         out.append('**Round %d**\n' % rnd)
         out.append('| id | change | needs | verdict of the property\'s check | queries with a counterexample |')
         out.append('|---|---|---|---|---|')
